@@ -83,6 +83,11 @@ func defaultsCorpus() []CorpusReq {
 	add("aspect/additive-min-omitted", withMP(ae, M{"function": "idealAdditiveCoefficient", "params": M{"coefficient": 0.25, "maxValue": 1.0}}))
 	add("aspect/additive-min05", withMP(ae, M{"function": "idealAdditiveCoefficient", "params": M{"coefficient": 0.25, "minValue": 0.5, "maxValue": 1.0}}))
 	add("aspect/multiplied-min025-max075", withMP(ae, M{"function": "idealMultipliedCoefficient", "params": M{"coefficient": 0.5, "minValue": 0.25, "maxValue": 0.75}}))
+	// two considered alternatives tied at the best value on every criterion, series running up to maxValue 1: the walk
+	// must still end (an iterator that never stops would spin for ever here)
+	tied := set(set(ae, M{"c1": 3.0, "c2": 1.0, "c3": 2.5}, "knownAlternatives", 0, "criteria"), M{"c1": 3.0, "c2": 1.0, "c3": 2.5}, "knownAlternatives", 2, "criteria")
+	add("aspect/additive-max1-tied-best", withMP(tied, M{"function": "idealAdditiveCoefficient", "params": M{"coefficient": 0.25, "minValue": 0.0, "maxValue": 1.0}}))
+	add("aspect/multiplied-max1-tied-best", withMP(tied, M{"function": "idealMultipliedCoefficient", "params": M{"coefficient": 0.5, "minValue": 0.0, "maxValue": 1.0}}))
 	sa := rootRequest("satisfactionHeuristic", true, false)
 	add("satisfaction/subtractive", withMP(sa, M{"function": "idealSubtractiveCoefficient", "params": M{"coefficient": 0.25, "minValue": 0.25, "maxValue": 1.0}}))
 	add("satisfaction/multiplied", withMP(sa, M{"function": "idealMultipliedCoefficient", "params": M{"coefficient": 0.5, "minValue": 0.125, "maxValue": 0.75}}))
